@@ -61,7 +61,10 @@ DEFAULT_SHARES = (4, 2, 4)
 
 CBMC_BASE = ["--sat-solver", "cadical", "--unwinding-assertions", "--drop-unused-functions",
              "--pointer-overflow-check", "--undefined-shift-check", "--signed-overflow-check",
-             "--object-bits", "12", "--verbosity", "8"]
+             "--object-bits", "12", "--verbosity", "8"] + \
+    (["--max-field-sensitivity-array-size", os.environ.get("VERIF_FSA", "256")] if os.environ.get("VERIF_FSA", "256") != "0" else [])
+# arrays up to this many elements are kept element-wise during symbolic execution (CBMC's default is 64): hash/HMAC/ISAP
+# objects of 65..256 bytes otherwise turn every store into an update of the whole array and symbolic execution crawls.
 # --bounds-check and --pointer-check are on by default in CBMC 6.
 
 
